@@ -274,10 +274,17 @@ class Uni(Engine):
         def one(chunk):
             text = ''.join(f'#case {i}\n' + ''.join(o + '\n' for o in c.ops) for i, c in enumerate(chunk))
             with tempfile.TemporaryFile(mode='w+', dir=OUT) as eh:
-                r = subprocess.run([exe], input=text, stdout=subprocess.PIPE, stderr=eh, text=True, env=env,
-                                   timeout=self.timeout, errors='replace')
+                try:
+                    r = subprocess.run([exe], input=text, stdout=subprocess.PIPE, stderr=eh, text=True, env=env,
+                                       timeout=self.timeout, errors='replace')
+                    so = r.stdout
+                except subprocess.TimeoutExpired as te:
+                    so = (te.stdout or b'').decode(errors='replace') if isinstance(te.stdout, bytes) else (te.stdout or '')
+                res = split_cases(so, len(chunk))
+                for c, o in zip(chunk, res):           # a harness process that died or hung: unanswered ops
+                    o += ['!crash harness-timeout'] * (len(c.ops) - len(o))
                 eh.seek(0)
-                return split_cases(r.stdout, len(chunk)), eh.read()[-4000:]
+                return res, eh.read()[-4000:]
         out, errs = [], []
         with ThreadPoolExecutor(self.JOBS) as ex:
             for o, e in ex.map(one, self._chunks(cases)):
@@ -356,6 +363,23 @@ class Uni(Engine):
             for tail in (b'', b'\x80', b'\x80\x80', b'\xbf\xbf\xbf', b'\x80\x80\x80\x80\x80', b'\x80\x80\x80\x80\x80\x80', b'A'):
                 ops.append(f'd8r {hx(bytes([lead]) + tail)}')
         yield Case('overlong-leads', ops)
+        # archive_string_append_unicode at the buffer borders: every (from, to) pair, tiny exact-size buffers that are
+        # full up to the terminator, sources of 0..4 bytes
+        ops = []
+        for fe in ('8', '16be', '16le'):
+            srcs = [b'', b'A', b'\xc3\xa9', b'\xe2\x82\xac', b'\xf0\x9f\x98\x80', b'\xff', b'\xe2\x82'] if fe == '8' else \
+                [b'', b'A'] + [enc16(c, fe == '16be') for c in (0x41, 0x20ac, 0x1f600)] + [enc16(0xd800, fe == '16be'), enc16(0x41, fe == '16be') + b'B']
+            for te in ('8', '16be', '16le'):
+                for cap in (0, 1, 2, 3, 4, 5, 6, 8, 31, 32, 33):
+                    for pl in sorted({max(0, cap - 1), max(0, cap - 2), max(0, cap - 3), 0}):
+                        if cap == 0 and pl:
+                            continue
+                        if cap and pl >= cap:
+                            continue
+                        for s in srcs:
+                            ops.append(f'app {flag_of(fe, te)} {cap} {hx(bytes(0x61 + i % 26 for i in range(pl)))} {hx(s)}')
+        for i in range(0, len(ops), 400):
+            yield Case(f'app-borders-{i // 400}', ops[i:i + 400])
         # remaining length at and above 2^31 (the block really is that long; untouched pages cost nothing)
         big = ['big8 ff4142434445 2147483648', 'big8 614142434445 2147483653']
         if tier != 'quick':
